@@ -497,6 +497,40 @@ fn findings() {
     }
 }
 
+/// vcom_eq: the verifier pairs `comms` and the response map `tis` by key and silently skips keys that
+/// are missing on either side; only the SIZES are compared.  A crafted prover who cannot open the
+/// individual commitment C_0 answers with a map keyed {1} instead of {0}.
+fn vcom_key_mismatch() {
+    let mut csprng = StdRng::seed_from_u64(11);
+    let sc = |c: &mut StdRng| C::generate_scalar(c);
+    let n = 3usize;
+    let gis: Vec<S> = (0..n).map(|_| sc(&mut csprng)).collect();
+    let (h, gbar, hbar) = (sc(&mut csprng), sc(&mut csprng), sc(&mut csprng));
+    let xs: Vec<S> = (0..n).map(|_| sc(&mut csprng)).collect(); let r = sc(&mut csprng);
+    let mut comm = mul(&r, &h); for i in 0..n { comm = add(&comm, &mul(&xs[i], &gis[i])); }
+    let junk = sc(&mut csprng); // C_0: a commitment the prover cannot open consistently (it is NOT x_0*g_bar + r_0*h_bar for any known r_0)
+    let mut comms = BTreeMap::new(); comms.insert(0u8, cmm(&junk));
+    let st = VecComEq::<C> { comm: cmm(&comm), comms, gis: gis.iter().map(pt).collect(), h: pt(&h), g_bar: pt(&gbar), h_bar: pt(&hbar) };
+    for v1 in [true, false] {
+        let alphas: Vec<S> = (0..n).map(|_| sc(&mut csprng)).collect(); let rt = sc(&mut csprng);
+        let mut a = mul(&rt, &h); for i in 0..n { a = add(&a, &mul(&alphas[i], &gis[i])); }
+        let commit: (C, Vec<C>) = (pt(&a), vec![]); // no individual point at all
+        let chal = if v1 { let mut ro = TranscriptProtocolV1::with_domain("kf4"); st.public(&mut ro); ro.append_message("point", &commit); ro.extract_raw_challenge() }
+                   else { let mut ro = RandomOracle::domain("kf4"); st.public(&mut ro); ro.append_message("point", &commit); ro.extract_raw_challenge() };
+        let c = st.get_challenge(&chal);
+        let neg = |x: &S| { let mut y = *x; y.negate(); y };
+        let mut pb = chal.as_ref().to_vec();
+        pb.extend((n as u16).to_be_bytes());
+        for i in 0..n { pb.extend(to_bytes(&add(&alphas[i], &neg(&mul(&c, &xs[i]))))); }
+        pb.extend(to_bytes(&add(&rt, &neg(&mul(&c, &r)))));
+        pb.extend(1u16.to_be_bytes()); pb.push(1u8); pb.extend(to_bytes(&su(0))); // tis = {1: 0}: same SIZE as comms, different key
+        let res = match from_bytes::<SigmaProof<concordium_base::sigma_protocols::vcom_eq::Response<C>>, _>(&mut std::io::Cursor::new(&pb)) {
+            Err(e) => json!({"parse_error": format!("{}", e)}),
+            Ok(proof) => { let acc = if v1 { verify(&mut TranscriptProtocolV1::with_domain("kf4"), &st, &proof) } else { verify(&mut RandomOracle::domain("kf4"), &st, &proof) }; json!({"accepted": acc}) } };
+        println!("{}", json!({"k":"vcom_eq_key_mismatch","kind": if v1 {"v1"} else {"legacy"}, "result": res}));
+    }
+}
+
 fn main() {
     quiet_panics();
     let a: Vec<String> = std::env::args().collect();
@@ -505,7 +539,7 @@ fn main() {
     match a.get(1).map(|s| s.as_str()) {
         Some("cases") => cases(seed, n),
         Some("points") => points(),
-        Some("findings") => findings(),
+        Some("findings") => { findings(); vcom_key_mismatch() }
         _ => { eprintln!("usage: c07 cases|points|findings seed n"); std::process::exit(2) }
     }
 }
